@@ -16,16 +16,16 @@ open OpenFGAVerif.Model.TupleStr OpenFGAVerif.Spec.TupleStr
 /-- what the validity loops can observe of a rune -/
 inductive Tok where
   | ctl
-  | asc (b : UInt8)
+  | asc (n : Nat)
   | oth
   deriving DecidableEq, Repr
 
 def tokOfRune (r : Nat) : Tok :=
-  if isControl r then .ctl else if r < 0x80 then .asc (UInt8.ofNat r) else .oth
+  if isControl r then .ctl else if r < 0x80 then .asc r else .oth
 
 /-- the token a byte stands for, given the bytes after it — no decoding -/
 def headTok (b : UInt8) (t : Bytes) : Tok :=
-  if b < 0x80 then (if asciiCtl b then .ctl else .asc b)
+  if b < 0x80 then (if asciiCtl b then .ctl else .asc b.toNat)
   else if b == 0xC2 && startsC1 t then .ctl
   else .oth
 
